@@ -289,6 +289,8 @@ def gen_case(rng):
                 if rng.random() < .2:
                     later = [x for x in keyset if order[x] > order[k] and _idx(x) != _idx(k)]
                     if later: nested = rng.choice(later)
+                    # ... or the caller reads the SAME key again inside its with-block (it holds a read lock on it already)
+                    if rng.random() < .4: nested = k
                 ops.append({"op": "gs", "key": k, "getter_fail": rng.choice([None, None, None, 0, 1, 2]), "body_fail": rng.random() < .15,
                             "nested": nested})
         callers.append(ops)
@@ -325,6 +327,7 @@ def run_schedule(spec, cnt):
                 if got != full_value(key, spec["nvals"][key]) or not complete:
                     mon.v("M3/partial-value-served", f"{name} read {got} (complete={complete}) for {key!r}, full value {full_value(key, spec['nvals'][key])}")
                 if op.get("nested") and depth == 0:
+                    if op["nested"] == key: cnt["oracle.nested-read-of-the-same-key"] += 1
                     do_gs(name, {"key": op["nested"], "getter_fail": None, "body_fail": False}, 1)
                 s.switch("body.step")
                 if op.get("body_fail"):
